@@ -2,6 +2,7 @@ from __future__ import annotations
 
 import dataclasses
 import logging
+import sys
 from collections import defaultdict
 from pathlib import Path
 from types import NoneType
@@ -1121,7 +1122,14 @@ class StubsStringGenerator:
             import_qname_path = import_qname.replace(".", "/")
             in_package = False
             qname = ""
-            for class_id in self.api.classes:
+            # A class of the standard library ("decimal.Decimal") is not searched in the package, even if the package has
+            # a module called like that
+            is_standard_library = (
+                len(qname_parts) > 1
+                and qname_parts[0] in sys.stdlib_module_names
+                and qname_parts[0] != self.api.package
+            )
+            for class_id in [] if is_standard_library else self.api.classes:
                 if self._is_path_connected_to_class(import_qname_path, class_id):
                     qname = class_id.replace("/", ".")
 
